@@ -443,6 +443,11 @@ func (e *allocEngine) checkPlacement(op string, s *allocSvc, got []string, famil
 		if p.NsSelOnly && len(p.Namespaces) == 0 {
 			sig = "placement:pool-does-not-admit:namespace-selector-matches-nothing"
 		}
+		if op == "Allocate" {
+			// the known weakness (a selector matching no namespace reads as "no restriction") is only
+			// reachable through an explicit request naming the pool or one of its addresses
+			sig = "placement:automatic-allocation-from-pool-that-does-not-admit"
+		}
 		e.c.Violation(sig, fmt.Sprintf("%s gave %s (ns %s labels %v) addresses %v of pool %s which does not admit it", op, s.key, req.Namespace, req.Labels, got, pn), nil)
 	}
 	if family {
